@@ -146,6 +146,8 @@ R = {
     "idx_scan_bound": tiered(gaps.idx_scan_bound),
     "sel_rotate_component": tiered(round7.sel_rotate_component),
     "own_resolver_input": tiered(round7.own_resolver_input),
+    "ord_repetition_state": tiered(round7.ord_repetition_state),
+    "prov_rdkit_source": tiered(round7.prov_rdkit_source),
     "sent_numeric_attrs": tiered(extra.sent_numeric_attrs),
     "ord_complete_loops": tiered(extra.ord_complete_loops),
     "own_mutable_defaults_layout": named("own_mutable_defaults_layout", own.own_mutable_defaults, "quick", tuple(own.SKIP_MODULES), 2),
@@ -355,6 +357,10 @@ for _pid, _txt in _LATER.items():
 _ROUND7 = {
     "sel_rotate_component": (["C19"], {"SEL.rotate-component": 1}),
     "own_resolver_input": (["C12", "C06"], {"OWN.resolver-input": 2}),
+    "ord_repetition_state": (["C05"], {"ORD.repetition-state": 1}),
+    "prov_rdkit_source": (["C18"], {"PROV.rdkit-source": 2}),
+    # a `.` in front of one ring marker is the order of that ring bond only (zero-order ring bonds attach virtual nodes: C11)
+    "ring_marker_text": (["C11"], {"TOK.ring-marker-text": 1}),
 }
 for _rn, (_pids, _fl) in _ROUND7.items():
     for _pid in _pids:
